@@ -179,6 +179,10 @@ package webtransport
 
 //@ spec wOK(w *messageWriter) bool = w != nil && w.c != nil && w.c.stream != nil && !w.c.isWriting && (w.err == nil ==> len(w.c.writeBuf) > 9 && 9 <= w.pos && w.pos <= len(w.c.writeBuf) && (w.frameType == TextMessage || w.frameType == BinaryMessage))
 
+//@ func (*Conn).CloseWithError(code, msg)
+//@   requires c != nil && c.session != nil
+//@   noeffect
+
 //@ func NewConn(session, stream, isServer, readBufferSize, writeBufferSize, writeBufferPool, br, writeBuf)
 //@   props C13, C10, C09
 //@   requires writeBuf == nil || len(writeBuf) > 9
